@@ -26,11 +26,13 @@ CLAIMED = {
  "C03": dict(
    text="Lean theorems over the provider core model, for every configuration and every operation history (induction over op lists): a token that is "
         "revoked, expired or removed stays dead for ever (dead_is_final) and no endpoint step honours it again (never_honoured_again: userinfo, "
-        "introspection, refresh, code redemption); revocation of a grant, of a client session (logout) and of a single token kills exactly "
-        "the tokens the property names (cascade theorems, using the proved identity invariant of reachable states); revocation and removal are "
+        "introspection, refresh, token exchange, code redemption); revocation of a grant, of a client session (logout-one), logout from all "
+        "clients and of a single token kills exactly the tokens the property names (cascade theorems incl. logout_all_cascades, using the "
+        "proved identity invariant of reachable states); revocation and removal are "
         "local (frame theorems). Tie: per-step correspondence of outcomes and full token/grant projections on generated histories + a reference "
         "liveness oracle probing every token at userinfo and introspection after every step.",
-   note="Token exchange and cross-grant derivation are outside the model (DESIGN F-C03-b); transitive based_on cascade is proved one level deep + "
+   note="Token exchange is in the model (opaque handlers; with JWT handlers the JWT's own exp is not modelled); a token exchanged by ANOTHER client "
+        "is not reached by the recursive revocation of its ancestors: known finding F-C03-b; transitive based_on cascade is proved one level deep + "
         "checked by oracle; cryptography/token codecs idealised as fresh handles (C04 covers resolution).",
    technique="Lean 4 proof: invariants by induction over operation histories of a state-machine model + model/implementation correspondence", ref="6 C03"),
  "C02": dict(
@@ -44,14 +46,14 @@ CLAIMED = {
    technique="Lean 4 proof: history invariant by induction + decision-logic theorems; exhaustive schedule enumeration for the correspondence", ref="6 C02"),
  "C05": dict(
    text="Lean theorems on the provider core model. History invariant, by induction over ALL API-step histories (authorize, code redemption with "
-        "parse/process interleaved, refresh with or without explicit scope, revocations, logouts, removals, clock): every token the provider "
-        "holds, however long its minting chain, carries a scope within the scope recorded for its own grant (scope_bounded), minting chains "
-        "never leave their grant (chains_stay_in_grant), and what introspection reports is within the grant's scope "
-        "(introspection_scope_bounded); decision logic: the grant records the request scope filtered by the client's allowed scopes, an "
+        "parse/process interleaved, refresh with or without explicit scope, token exchange by the owning or another client, revocations, logouts, "
+        "removals, clock): every token the provider holds, however long its minting chain, carries a scope within the scope recorded for its own "
+        "grant (scope_bounded), an exchange delivers only within the subject token's scope and within what was asked (exchange_never_widens, "
+        "exchange_within_original_grant), and what introspection reports is within the grant's scope (introspection_scope_bounded); decision logic: the grant records the request scope filtered by the client's allowed scopes, an "
         "authorization stores a code with exactly that scope, a refresh with an explicit scope delivers only within the find_scope bound and "
         "states exactly that scope. Tie: histories against the real provider with per-step scope projection of every stored token; oracle: "
         "scope(token) within scope(grant) and the three views response / JWT / introspection agree.",
-   note="Token exchange, client-credentials and password grants are not in the provider core model (their scope handling is covered by the oracle only where the histories reach them).",
+   note="Client-credentials and password grants and deny_unknown_scopes are not in the provider core model; token exchange is modelled for opaque token handlers.",
    technique="Lean 4 proof (invariant by induction over operation histories + decision logic) + model/implementation correspondence on histories", ref="6 C05"),
  "C10": dict(
    text="Lean theorems, generic in the schema and unbounded in message size: dict/JSON round trip and form-encoding round trip (equal up to the "
@@ -100,9 +102,12 @@ CLAIMED = {
         "X's registration, X's secret unexpired and the request carries X's credential for m (Basic/POST secret equal to the stored one; "
         "assertion that unpacks under the issuer's keys, right algorithm family for the method, oct key = stored secret, audience = endpoint, "
         "issuer = X, jti not in the replay cache); replayed_assertion_not_accepted + jti_monotone — once (iss,jti) is recorded no JWT method "
-        "accepts it after any number of intervening requests; no_jti_is_replayable — proved counter-example for the stronger reading (F-C01-a). "
+        "accepts it after any number of intervening requests; no_jti_is_replayable — proved counter-example for the stronger reading (F-C01-a); acted_for_means_credential — what Endpoint.parse_request "
+        "hands to the endpoint-specific code as an authenticated request of X carried X's credential, whatever client_id the body claims. "
         "Tie: histories against the real token/introspection/revocation/userinfo endpoints with credentials built concretely by cryptojwt; "
-        "outcome and replay-cache size compared after every request; ground-truth oracle.",
+        "outcome, the request handed on (client_id, authenticated) and replay-cache size compared after every request, through the whole of "
+        "parse_request, with a token endpoint that also serves public clients, body parameters naming another client or declaring the request "
+        "authenticated, and export/import into a fresh instance inside the histories; ground-truth oracle.",
    note="JWS signature verification and exp enforcement are inside cryptojwt (field `unpack`, computed by the harness by calling cryptojwt directly); "
         "request_param and bearer_body methods not modelled; 'refused yields no tokens' is exercised through C02/C03 harnesses rather than here.",
    technique="Lean 4 proof (decision logic + monotone replay-cache invariant over request histories) + endpoint correspondence with concrete credentials", ref="6 C01"),
